@@ -260,6 +260,29 @@ func genScenario(r *kit.Rng, backend, kind string) *scenario {
 		case 3: // nothing seeded: refused renames only (below)
 		}
 	}
+	// deleted marks (name -> Null ID) in the containers view, as a removed container leaves them;
+	// the schemas below bring those names back
+	if (kind == "history" || kind == "rename" || kind == "retry") && r.Chance(1, 3) {
+		del := []string{kit.Pick(r, contUniverse)}
+		if x := kit.Pick(r, contUniverse); x != del[0] && r.Bool() {
+			del = append(del, x)
+		}
+		for _, c := range del {
+			sc.Seed = append(sc.Seed, seedRow{1, c, 0})
+		}
+		if r.Bool() {
+			for _, c := range contUniverse {
+				if c != del[0] && (len(del) < 2 || c != del[1]) {
+					sc.Seed = append(sc.Seed, seedRow{1, c, uint64(64 + r.Intn(5))})
+					break
+				}
+			}
+		}
+		sc.SeedVers[1] = 1
+		if r.Chance(2, 3) {
+			cur.Docs[0].Containers = append([]string{}, del...)
+		}
+	}
 	first := true
 	for v := 0; v < nVersions; v++ {
 		st := &stepSpec{Kind: "start", Schema: ptr(cloneSchema(cur)), Puts: pickPuts(r, cur)}
